@@ -334,6 +334,28 @@ def with_drain(ops, pulls=2):
     return out
 
 
+def expiry_load_cases(sizes=(255, 256, 257, 511, 512, 513, 1000, 2000), reps=(1, 4), prefix="xl"):
+    """Many leases running out at one instant while requests reach the subscription at that very moment (SEQ: the
+    clock jump and the requests without letting the runtime settle in between), then a drain."""
+    T, Sn = hx(tname("p", "t")), hx(sname("p", "s"))
+    cases = []
+    for n in sizes:
+        for r in reps:
+            for dt in (10100, 10000):
+                ops = ["CT " + T, "CS %s %s 10 ~" % (Sn, T)]
+                left = n
+                while left > 0:
+                    k = min(left, 1000)
+                    ops += ["PUBN %s %d 78" % (T, k), "PULL %s %d 1" % (Sn, k)]
+                    left -= k
+                ops += ["STATS " + Sn,
+                        "SEQ ADV %d ;; %s" % (dt * MS, " ;; ".join(["STATS " + Sn] * r)),
+                        "STATS " + Sn, "ADV %d" % (200 * MS), "STATS " + Sn]
+                ops = with_drain(ops, pulls=n // 1000 + 2)
+                cases.append(("%s-n%d-r%d-d%d" % (prefix, n, r, dt), ops))
+    return cases
+
+
 W_DATA = {"PUB": 8, "PULL": 8, "ACK": 5, "NACK": 3, "MOD": 4, "ADV": 6, "STATS": 3}
 W_CONTROL = {"CT": 4, "GT": 2, "DT": 3, "CS": 5, "GS": 3, "DS": 3, "LT": 2, "LS": 2, "LTS": 3, "REG": 1}
 W_STREAM = {"SO": 3, "SS": 5, "SR": 4, "SC": 1}
@@ -480,7 +502,7 @@ def paging_walk_cases(counts, sizes, seed=0, prefix="pg"):
             subs = []
             if live:
                 ops.append("CT " + hx(tname("other", "home")))
-                for i in range(min(n, 25)):
+                for i in range(min(n, 33)):
                     if i % 3 == 0:
                         ops.append("CS %s %s 10 ~" % (hx(sname("other", "o%03d" % i)), hx(tname("other", "home"))))
                     s = sname("p", "s%03d" % i)
